@@ -31,7 +31,7 @@ META = {
     'alphabet': {'classes': 'Agent, A(Agent), A1(A), B(Agent), Environment, E(Environment) - subclasses created fresh '
                             'per execution, library classes reset to pristine',
                  'ops': 'add_class_component(cls, X|Y) incl. duplicates, remove_class_component(cls, X|Y) incl. absent, '
-                        'cls.tag = 0|3',
+                        'cls.tag = 0|3, defining a new subclass of Agent / A / Environment mid-history',
                  'per-state probes': 'len/contains/getitem/get_class_component(strict)/has_class_component/tag on every '
                                      'class; instance without tag, with tag 7 and with tag 0; instance-level '
                                      'add_component X on a fresh instance'},
@@ -79,10 +79,26 @@ class Harness:
         return w
 
     def ops(self, w):
-        return self._ops
+        ops = list(self._ops)
+        for parent in ('Agent', 'A', 'Environment'):
+            n = 'N_' + parent
+            if n in w.cls:
+                ops += [['attach', n, 'X'], ['tag', n, 3]]
+            else:
+                ops.append(['subclass', parent])
+        return ops
 
     def apply(self, w, op):
         kind, c = op[0], op[1]
+        if kind == 'subclass':
+            # a class defined later starts with an empty store and the default tag NONE, whatever its parent holds
+            name = 'N_' + c
+            w.cls[name] = type(w.cls[c])(name, (w.cls[c],), {})
+            w.ref[name] = {'comps': [], 'tag': 0}
+            for T in ('X', 'Y'):
+                w.comp[(name, T)] = TYPES[T](w.cls[name], w.model)
+            w.last = ('subclass', c)
+            return
         cls, ref = w.cls[c], w.ref[c]
         if kind == 'attach':
             T = op[2]
@@ -120,7 +136,7 @@ class Harness:
         raise Violation(f'{what}: accepted', expected=exc.__name__, observed='no exception')
 
     def check(self, w):
-        for c in CLASSES:
+        for c in list(w.cls):
             cls, ref = w.cls[c], w.ref[c]
             what = f'class {c} (reference {w.ref})'
             if len(cls) != len(ref['comps']):
@@ -188,10 +204,13 @@ class Harness:
 
     def canon(self, w):
         out = []
-        for c in CLASSES:
+        for c in w.cls:
             cls = w.cls[c]
             out.append((tuple((t.__name__, self._cname(w, v)) for t, v in cls._components.items()), cls._tag, cls._id))
         return tuple(out)
+
+    def refstate(self, w):
+        return tuple((c, tuple(w.ref[c]['comps']), w.ref[c]['tag']) for c in w.cls)
 
     def outcome(self, w):
         return (self.canon(w), w.last)
